@@ -46,10 +46,29 @@ def preload_cli():
     quiet()
 
 
+_OS_ENTROPY = {"seed": 0, "n": 0}
+
+
+def _fake_urandom(n):
+    """OS entropy seam: os.urandom / secrets / SystemRandom / numpy SeedSequence(None) are served
+    from a simulator-chosen stream (one per simulated launch)."""
+    import hashlib
+
+    out = b""
+    while len(out) < n:
+        _OS_ENTROPY["n"] += 1
+        out += hashlib.sha256(f"urandom:{_OS_ENTROPY['seed']}:{_OS_ENTROPY['n']}".encode()).digest()
+    return out[:n]
+
+
 def set_entropy(seed: int):
-    """Process-start entropy of a simulated launch: global numpy and stdlib state."""
+    """Process-start entropy of a simulated launch: global numpy and stdlib state and the
+    OS entropy pool."""
     np.random.seed(h64("np-global", seed) % (2**32))
     random.seed(h64("py-global", seed))
+    _OS_ENTROPY["seed"], _OS_ENTROPY["n"] = seed, 0
+    random._urandom = _fake_urandom
+    os.urandom = _fake_urandom
 
 
 def global_state_digest():
